@@ -78,6 +78,9 @@ def _c17_small(args):
         modes = (row['r'], row['o'])
         route = ['ctor', 'call', 'set_val'][idx % 3]
         out.append(x_misc.observe_scaled(fx, np, [pid], t, modes, scale, bias, us, route=route, scalar=False))
+        ints = [u for u in us if (u * scale + bias).denominator == 1]
+        if len(ints) >= 3:
+            out.append(x_misc.observe_scaled(fx, np, [pid], t, modes, scale, bias, ints[:3 * (len(ints) // 3)], route=route, scalar=False))
         sub = us if tier == 'thorough' else us[idx % 5::5]
         out.append(x_misc.observe_scaled(fx, np, [pid], t, modes, scale, bias, sub, route=route, scalar=True))
         if idx % 9 == 0 and row['o'] == 'saturate':
@@ -109,6 +112,9 @@ def _c17_wide(args):
         m = rng.choice(MODES)
         out.append(x_misc.observe_scaled(fx, np, [pid], t, m, scale, bias, us, route=rng.choice(['ctor', 'call', 'set_val']), scalar=True))
         out.append(x_misc.observe_scaled(fx, np, [pid], t, m, scale, bias, us, route=rng.choice(['ctor', 'call', 'set_val']), scalar=False))
+        ints = [u for u in us if (u * scale + bias).denominator == 1]
+        if len(ints) >= 2:
+            out.append(x_misc.observe_scaled(fx, np, [pid], t, m, scale, bias, ints[:3 * (len(ints) // 3)] or ints, route=rng.choice(['ctor', 'call', 'set_val']), scalar=False))
         if rng.random() < 0.3:
             out.append(x_misc.observe_scaled(fx, np, [pid], t, ('trunc', 'saturate'), scale, bias, us[:1], scalar=True, infer=True))
     return [o for o in out if o is not None]
